@@ -29,7 +29,7 @@ def classify(rec, case):
         if name in ("self.task._run", "self.task._run_async"):
             seen_run = True
             continue
-        if seen_run and how == "raise" and name in H.SITE_OF:
+        if seen_run and how in ("raise", "raise-base") and name in H.SITE_OF:
             if H.SITE_OF[name] in ("hooks.post_run_task", "audit.finalize_audit"):
                 return f"result-not-saved@{H.SITE_OF[name]}"
     return None
